@@ -1,0 +1,30 @@
+//go:build verif
+
+package car
+
+// Stepwise access to the internal CARv1 reader for the external verification harness (build tag
+// "verif" only; add-only): several readers alive at once, Next called one block at a time and again
+// after io.EOF.
+
+import (
+	"io"
+
+	blocks "github.com/ipfs/go-block-format"
+	"github.com/ipfs/go-cid"
+	"github.com/ipld/go-car/v2/internal/carv1"
+)
+
+// VerifC01CarV1Reader wraps an internal carv1.CarReader.
+type VerifC01CarV1Reader struct{ cr *carv1.CarReader }
+
+// VerifC01NewCarV1Reader runs the internal constructor and returns the reader with the header's roots.
+func VerifC01NewCarV1Reader(r io.Reader, zeroLenAsEOF bool, maxHeader, maxSection uint64) (*VerifC01CarV1Reader, []cid.Cid, error) {
+	cr, err := carv1.NewCarReaderWithoutDefaults(r, zeroLenAsEOF, maxHeader, maxSection)
+	if err != nil {
+		return nil, nil, err
+	}
+	return &VerifC01CarV1Reader{cr}, cr.Header.Roots, nil
+}
+
+// Next is the internal reader's Next.
+func (v *VerifC01CarV1Reader) Next() (blocks.Block, error) { return v.cr.Next() }
